@@ -42,6 +42,11 @@ class Table:
         return {dec(s['cat']): dec(s['alt']) for s in self.rows[tuple(cfg)]['sel']}
 
 
+def _rest(ctx):
+    """context facts without the keys the call site gives explicitly (no duplicate keyword arguments)"""
+    return {k: v for k, v in ctx.items() if k not in ('got', 'want', 'want_count', 'operator_key', 'want_set', 'want_id')}
+
+
 def _mm(out, key, match, **detail):
     out.append(dict(key=key, detail=detail, match=match))
 
@@ -273,17 +278,17 @@ def replay_path(st: Struct, tab: Table, path: dict, pidx: int, patch=None):
                 direct = cc.two_controllers(first_controller_name=names[step['a'] - 1], second_controller_name=names[step['b'] - 1],
                                             direction=step['dir'], current_config=before, step=s)
             if direct[0].get_string_id() != want_id:
-                _mm(out, f'operator:{op}:method', f, **ctx, got=direct[0].get_string_id())
+                _mm(out, f'operator:{op}:method', f, **_rest(ctx), got=direct[0].get_string_id())
             if key not in ops:
-                _mm(out, "operator:missing", f, **ctx, operator_key=key)
+                _mm(out, "operator:missing", f, **_rest(ctx), operator_key=key)
             else:
                 new, ret = ops[key](before, s)
                 if new.get_string_id() != want_id:
-                    _mm(out, f'operator:{op}', f, **ctx, got=new.get_string_id(), operator_key=key)
+                    _mm(out, f'operator:{op}', f, **_rest(ctx), got=new.get_string_id(), operator_key=key)
                 if ret != step['ret'] or direct[1] != step['ret']:
-                    _mm(out, f'operator:{op}:count', dict(kind='count', op=op, **facts), **ctx, got=ret, want_count=step['ret'])
+                    _mm(out, f'operator:{op}:count', dict(kind='count', op=op, **facts), **_rest(ctx), got=ret, want_count=step['ret'])
                 if new not in cc.all_configurations:
-                    _mm(out, f'operator:{op}:closure', f, **ctx, got=new.get_string_id())
+                    _mm(out, f'operator:{op}:closure', f, **_rest(ctx), got=new.get_string_id())
         elif op in ('sevinc', 'sevdec'):
             key = 'Increase_several' if op == 'sevinc' else 'Decrease_several'
             before = cc.get_configuration()
@@ -299,16 +304,16 @@ def replay_path(st: Struct, tab: Table, path: dict, pidx: int, patch=None):
                 got_id = new.get_string_id()
                 got = tab.cfg_of.get(got_id)
                 if got is None or new not in cc.all_configurations:
-                    _mm(out, f'operator:{op}:closure', f, **ctx, got=got_id)
+                    _mm(out, f'operator:{op}:closure', f, **_rest(ctx), got=got_id)
                     continue
                 seen.add(got)
                 if ret != k:
-                    _mm(out, f'operator:{op}:count', dict(kind='count', op=op, **facts), **ctx, got=ret, want_count=k)
+                    _mm(out, f'operator:{op}:count', dict(kind='count', op=op, **facts), **_rest(ctx), got=ret, want_count=k)
                 if got not in allowed:
                     right = got in _reach(st, cur, k, d)
                     wrong = got in _reach(st, cur, k, -d)
                     clause = 'repeated-controller' if right else ('direction' if wrong else 'other')
-                    _mm(out, f'operator:{op}:{clause}', dict(kind='several', op=op, clause=clause, **facts), **ctx, got=got_id,
+                    _mm(out, f'operator:{op}:{clause}', dict(kind='several', op=op, clause=clause, **facts), **_rest(ctx), got=got_id,
                         allowed=sorted(tab.id_of[a] for a in allowed), try_index=t)
                 if got == want:
                     reached = True
@@ -335,7 +340,7 @@ def replay_path(st: Struct, tab: Table, path: dict, pidx: int, patch=None):
             want = last  # the order of the visit is free: the configuration left behind is the last one visited
         bad = _state_mismatch(real, tab, want, f'after step {sidx} ({op})')
         if bad:
-            _mm(out, f'state:{op}:' + bad['what'], f, **ctx, **{k_: v for k_, v in bad.items() if k_ != 'want'})
+            _mm(out, f'state:{op}:' + bad['what'], f, **_rest(ctx), **{k_: v for k_, v in bad.items() if k_ != 'want'})
             # re-synchronise so that one defect is reported once per path, not at every later step
             cc.set_configuration(Configuration.from_string(tab.id_of[want]))
         cur = want
